@@ -118,6 +118,9 @@ pub fn parse_error_location(e_line_col: LineColLocation, mapped_lines: &Vec<(std
         (lc_line(e_line_col) - 1 < mapped_lines@.len()) ==> r.0 == mapped_lines@[lc_line(e_line_col) - 1].0 && r.1 == mapped_lines@[lc_line(e_line_col) - 1].1, //@ C06:parse-error-line
         // ... and so are the including file and line
         (lc_line(e_line_col) - 1 < mapped_lines@.len()) ==> inc_view(r.3) == inc_of(mapped_lines@[lc_line(e_line_col) - 1]), //@ C06:parse-error-included-in
+        // an error found at the end of the input (pest points one line past the table) is located at the last line that reached the compiler, includer included
+        (e_line_col is Pos && lc_line(e_line_col) - 1 >= mapped_lines@.len() && mapped_lines@.len() > 0) ==> r.0 == mapped_lines@[mapped_lines@.len() - 1].0 && r.1 == mapped_lines@[mapped_lines@.len() - 1].1
+            && inc_view(r.3) == inc_of(mapped_lines@[mapped_lines@.len() - 1]), //@ C06:parse-error-past-the-end-is-the-last-line
 {
     let filename;
     let line;
